@@ -239,4 +239,702 @@ Proof. intros CP CQ.
     + destruct (gcd_loop_spec p Hp (length Q) P Q) as [D1 [D2 _]]; auto.
     + destruct (gcd_loop_spec p Hp (length P) Q P) as [D1 [D2 _]]; auto. Qed.
 
+(* ================= S3: the square-free decomposition loses nothing and invents nothing ================= *)
+(* invariant of the Yun loop: (remaining cofactor W) * (parts appended) = W on entry, whichever way the loop ends;
+   when it ends by the early exit `++count > Nfact` exactly max(rem,1) parts were appended *)
+Lemma sqr_loop_prod : forall rem W Y Zp acc, canon W -> canon Zp ->
+  exists N, snd (fst (sqr_loop p rem W Y Zp acc)) = acc ++ N /\
+    eqp (pmulZ (snd (sqr_loop p rem W Y Zp acc)) (prodl N)) W /\
+    (fst (fst (sqr_loop p rem W Y Zp acc)) = true -> length N = Nat.max rem 1).
+Proof. induction rem as [|rem IH]; intros W Y Zp acc CW CZ.
+  - destruct Zp as [|z Zp]; cbn [sqr_loop fst snd].
+    + exists []. rewrite app_nil_r. split; [reflexivity|]. split; [|discriminate].
+      apply eqp_ev. intros x. rewrite ev_pmulZ, ev_prodl_nil. ring.
+    + set (F := pgcd p W (z :: Zp)).
+      assert (CF : canon F) by (apply pgcd_canon; assumption).
+      assert (NF : F <> []) by (apply pgcd_nonnil; right; discriminate).
+      destruct (pgcd_divides_always W (z :: Zp) CW CZ) as [DF _]. fold F in DF.
+      destruct (div_exact p Hp W F CW CF NF DF) as [Ex _].
+      exists [F]. split; [reflexivity|]. split; [|reflexivity].
+      eapply eqp_trans; [|exact Ex]. apply eqp_ev. intros x. rewrite !ev_pmulZ, ev_prodl1. ring.
+  - destruct Zp as [|z Zp].
+    + cbn [sqr_loop fst snd]. exists []. rewrite app_nil_r. split; [reflexivity|]. split; [|discriminate].
+      apply eqp_ev. intros x. rewrite ev_pmulZ, ev_prodl_nil. ring.
+    + cbn [sqr_loop]. cbv zeta. set (F := pgcd p W (z :: Zp)).
+      assert (CF : canon F) by (apply pgcd_canon; assumption).
+      assert (NF : F <> []) by (apply pgcd_nonnil; right; discriminate).
+      destruct (pgcd_divides_always W (z :: Zp) CW CZ) as [DF _]. fold F in DF.
+      destruct (div_exact p Hp W F CW CF NF DF) as [Ex CW'].
+      destruct rem as [|rem'].
+      * cbn [fst snd]. exists [F]. split; [reflexivity|]. split; [|reflexivity].
+        eapply eqp_trans; [|exact Ex]. apply eqp_ev. intros x. rewrite !ev_pmulZ, ev_prodl1. ring.
+      * match goal with |- context [sqr_loop p (S rem') ?W1 ?Y1 ?Z1 ?a1] =>
+          destruct (IH W1 Y1 Z1 a1 CW' ltac:(apply canon_red; assumption)) as [N [E1 [E2 E3]]] end.
+        exists (F :: N). split; [rewrite E1, <- app_assoc; reflexivity|]. split.
+        -- eapply eqp_trans; [|exact Ex]. eapply eqp_trans; [|apply eqp_mul; [apply eqp_refl|exact E2]].
+           apply eqp_ev. intros x. rewrite !ev_pmulZ, ev_prodl_cons. ring.
+        -- intros Hb. specialize (E3 Hb). cbn [length]. lia. Qed.
+
+(* facts about the normalisations in sqrfree *)
+Lemma sq_A_facts P : canon P -> P <> [] ->
+  canon (sq_A p P) /\ sq_A p P <> [] /\ divides (sq_A p P) P /\ divides P (sq_A p P).
+Proof. intros CP HP. exact (monic_assoc P CP HP). Qed.
+Lemma sq_C_facts P : canon P -> P <> [] ->
+  canon (sq_C p P) /\ sq_C p P <> [] /\ divides (sq_C p P) (sq_A p P) /\
+  divides (sq_C p P) (pdiff p (sq_A p P)) /\ divides (pgcd p (sq_A p P) (pdiff p (sq_A p P))) (sq_C p P).
+Proof. intros CP HP. destruct (sq_A_facts P CP HP) as [CA [NA _]].
+  unfold sq_C. cbv zeta. set (D := pgcd p (sq_A p P) (pdiff p (sq_A p P))).
+  assert (CD : canon D) by (apply pgcd_canon; auto using pdiff_canon).
+  assert (ND : D <> []) by (apply pgcd_nonnil; left; assumption).
+  destruct (pgcd_divides_always (sq_A p P) (pdiff p (sq_A p P)) CA (pdiff_canon _)) as [D1 D2]. fold D in D1, D2.
+  destruct (monic_assoc D CD ND) as [CC [NC [M1 M2]]].
+  split; [assumption|]. split; [assumption|]. split; [|split]; try assumption; eapply divides_trans; eassumption. Qed.
+
+(* the general form: what sqrfree returns in each of its two ways to end (Nfact <> 0) *)
+Theorem sqrfree_parts_gen Nfact P : canon P -> P <> [] -> Nfact <> 0 ->
+  (fst (sqrfree p Nfact P) = Z.of_nat (length (snd (sqrfree p Nfact P))) /\
+   eqp (pmulZ (sq_C p P) (prodl (snd (sqrfree p Nfact P)))) (sq_A p P)) \/
+  (fst (sqrfree p Nfact P) = Nfact /\ length (snd (sqrfree p Nfact P)) = S (Z.to_nat Nfact) /\
+   exists Wf, eqp (pmulZ (sq_C p P) (pmulZ Wf (prodl (snd (sqrfree p Nfact P))))) (sq_A p P)).
+Proof. intros CP HP HN. destruct (sq_A_facts P CP HP) as [CA [NA _]].
+  destruct (sq_C_facts P CP HP) as [CC [NC [DC _]]].
+  destruct (div_exact p Hp _ _ CA CC NC DC) as [Ex CW].
+  unfold sqrfree. destruct (Z.eqb_spec Nfact 0) as [|_]; [contradiction|]. cbv zeta.
+  change (pscale p (inv p (lc P)) P) with (sq_A p P).
+  change (pscale p (inv p (lc (pgcd p (sq_A p P) (pdiff p (sq_A p P))))) (pgcd p (sq_A p P) (pdiff p (sq_A p P)))) with (sq_C p P).
+  set (A := sq_A p P) in *. set (C := sq_C p P) in *.
+  destruct (list_eq_dec Z.eq_dec C pone) as [EC|_].
+  { left. cbn [fst snd length]. split; [reflexivity|]. rewrite EC. apply eqp_ev. intros x. rewrite ev_pmulZ, ev_prodl1. unfold pone. cbn [ev]. ring. }
+  match goal with |- context [sqr_loop p ?r ?W ?Y ?Z0 ?a] =>
+    destruct (sqr_loop_prod r W Y Z0 a CW ltac:(apply canon_red; assumption)) as [N [E1 [E2 E3]]];
+    destruct (sqr_loop p r W Y Z0 a) as [[b acc] Wf] end.
+  cbn [fst snd app] in E1, E2, E3. subst acc.
+  assert (E4 : eqp (pmulZ C (pmulZ Wf (prodl N))) A).
+  { eapply eqp_trans; [apply eqp_mul; [apply eqp_refl|exact E2]|exact Ex]. }
+  destruct b; cbn [fst snd].
+  - right. split; [reflexivity|]. split; [rewrite E3 by reflexivity; lia|]. exists Wf. exact E4.
+  - left. split; [rewrite app_length; cbn [length]; lia|]. eapply eqp_trans; [|exact E4].
+    apply eqp_ev. intros x. rewrite !ev_pmulZ, ev_prodl_app, ev_prodl1. ring. Qed.
+
+(* S3 as asked: when the loop did not leave by the early exit -- observable as  n = number of parts returned --
+   the parts multiply, WITHOUT multiplicities, to A / gcd(A, A') (made monic), in every characteristic *)
+Theorem sqrfree_parts Nfact P n Fact : canon P -> P <> [] -> Nfact <> 0 -> sqrfree p Nfact P = (n, Fact) ->
+  n = Z.of_nat (length Fact) -> eqp (pmulZ (sq_C p P) (prodl (firstn (Z.to_nat n) Fact))) (sq_A p P).
+Proof. intros CP HP HN H Hn. destruct (sqrfree_parts_gen Nfact P CP HP HN) as [[_ E]|[E1 [E2 _]]]; rewrite H in *; cbn [fst snd] in *.
+  - rewrite Hn, Nat2Z.id, firstn_all. exact E.
+  - exfalso. lia. Qed.
+
+(* ... and in every case (early exit included, Nfact = 0 included) the first n parts times C divide A: nothing is invented *)
+Theorem sqrfree_sound Nfact P n Fact : canon P -> P <> [] -> sqrfree p Nfact P = (n, Fact) ->
+  divides (pmulZ (sq_C p P) (prodl (firstn (Z.to_nat n) Fact))) (sq_A p P) /\
+  divides (pmulZ (sq_C p P) (prodl Fact)) (sq_A p P).
+Proof. intros CP HP H. destruct (sq_C_facts P CP HP) as [_ [_ [DC _]]].
+  assert (X : divides (pmulZ (sq_C p P) (prodl Fact)) (sq_A p P)).
+  { destruct (Z.eq_dec Nfact 0) as [->|HN].
+    - unfold sqrfree in H. cbn [Z.eqb] in H. inversion H; subst.
+      eapply divides_eqp_l; [|exact DC]. apply eqp_ev. intros x. rewrite ev_pmulZ, ev_prodl_nil. ring.
+    - destruct (sqrfree_parts_gen Nfact P CP HP HN) as [[_ E]|[_ [_ [Wf E]]]]; rewrite H in *; cbn [fst snd] in *.
+      + exists [1]. eapply eqp_trans; [|exact E]. apply eqp_ev. intros x. rewrite !ev_pmulZ. cbn [ev]. ring.
+      + exists Wf. eapply eqp_trans; [|exact E]. apply eqp_ev. intros x. rewrite !ev_pmulZ. ring. }
+  split; [|exact X]. eapply divides_trans; [|exact X].
+  destruct (prodl_firstn_divides (Z.to_nat n) Fact) as [q Hq]. exists q.
+  eapply eqp_trans; [|apply eqp_mul; [apply eqp_refl|exact Hq]]. apply eqp_ev. intros x. rewrite !ev_pmulZ. ring. Qed.
+
+(* consequently every part returned divides P (for P = [] trivially) *)
+Theorem sqrfree_part_divides Nfact P n Fact g : canon P -> sqrfree p Nfact P = (n, Fact) -> In g Fact -> divides g P.
+Proof. intros CP H Hg. destruct P as [|c P']; [apply divides_nil|]. set (P := c :: P') in *.
+  assert (HP : P <> []) by discriminate.
+  destruct (sqrfree_sound Nfact P n Fact CP HP H) as [_ X]. destruct (sq_A_facts P CP HP) as [_ [_ [DA _]]].
+  eapply divides_trans; [|exact DA]. eapply divides_trans; [|exact X].
+  apply divides_mul_l. apply in_divides_prodl. exact Hg. Qed.
+
+(* ================= S4: CZfactor returns only divisors of P, whatever the random stream ================= *)
+(* the loop over the square-free parts, WITHOUT multiplicities: the appended factors multiply (up to a constant) to the
+   product of the parts, and each appended factor divides one of the parts *)
+Lemma cz_loop_prod : forall g i MOD Lf Le s Lf' Le' s', Forall canon g ->
+  cz_loop p g i MOD Lf Le s = Some (Lf', Le', s') ->
+  exists Nf U, Lf' = Lf ++ Nf /\ deg U <= 0 /\ eqp (pmulZ (prodl Nf) U) (prodl g) /\
+    Forall (fun f => exists gi, In gi g /\ divides f gi) Nf.
+Proof. induction g as [|gi g IH]; intros i MOD Lf Le s Lf' Le' s' Cg H; cbn [cz_loop] in H.
+  - inversion H; subst. exists [], [1]. rewrite app_nil_r. split; [reflexivity|]. split; [cbn; lia|]. split; [|constructor].
+    apply eqp_ev. intros x. rewrite ev_pmulZ, ev_prodl_nil. cbn [ev]. ring.
+  - inversion Cg as [|? ? Cgi Cg']; subst.
+    destruct (ddf p gi MOD Lf s) as [[Lf1 s1]|] eqn:ED; [|discriminate].
+    destruct (ddf_spec p Hp gi MOD Lf s Lf1 s1 Cgi ED) as [N [u [E1 [P1 [Du F1]]]]].
+    destruct (IH _ _ _ _ _ _ _ _ Cg' H) as [Nf2 [U2 [E2 [DU2 [P2 G2]]]]].
+    exists (N ++ Nf2), (pmulZ u U2). split; [subst; rewrite app_assoc; reflexivity|].
+    split. { unfold deg in *. pose proof (len1_mul u U2 ltac:(lia) ltac:(lia)). lia. }
+    split.
+    + eapply eqp_trans; [|apply eqp_mul; [exact P1|exact P2]].
+      apply eqp_ev. intros x. rewrite !ev_pmulZ, ev_prodl_app. ring.
+    + apply Forall_app. split.
+      * apply Forall_forall. intros f Hf. exists gi. split; [left; reflexivity|].
+        eapply divides_eqp; [|exact P1]. apply divides_mul_r. apply in_divides_prodl. exact Hf.
+      * eapply Forall_impl; [|exact G2]. cbn beta. intros f [gj [Hj Dj]]. exists gj. split; [right; exact Hj|exact Dj]. Qed.
+
+(* every factor CZfactor returns divides P: for every canonical input, every characteristic, every random stream *)
+Theorem czfactor_factors_divide P MOD s Lf Le s' : canon P -> czfactor p P MOD s = Some (Lf, Le, s') ->
+  forall f, In f Lf -> divides f P.
+Proof. intros CP H f Hf. unfold czfactor in H. pose proof (sqrfree_canon p Hp (deg P + 1) P) as Cg.
+  destruct (sqrfree p (deg P + 1) P) as [nb g] eqn:ES. cbn [snd] in Cg.
+  destruct (cz_loop_prod _ 0 MOD [] [] s Lf Le s' (Forall_firstn' _ _ _ Cg) H) as [Nf [U [E1 [_ [_ G]]]]].
+  cbn [app] in E1. subst Nf. rewrite Forall_forall in G. destruct (G f Hf) as [gi [Hi Di]].
+  eapply divides_trans; [exact Di|]. eapply (sqrfree_part_divides _ P nb g gi CP ES). eapply in_firstn. exact Hi. Qed.
+
+(* the strongest consequence: the product of ALL returned factors (each once) times a constant U times C = monic gcd(A,A')
+   divides the monic A; and it IS A when sqrfree did not leave by its early exit *)
+Theorem czfactor_radical P MOD s Lf Le s' : canon P -> P <> [] -> czfactor p P MOD s = Some (Lf, Le, s') ->
+  exists U, deg U <= 0 /\
+    eqp (pmulZ (prodl Lf) U) (prodl (firstn (Z.to_nat (fst (sqrfree p (deg P + 1) P))) (snd (sqrfree p (deg P + 1) P)))) /\
+    divides (pmulZ (sq_C p P) (pmulZ (prodl Lf) U)) (sq_A p P) /\
+    (fst (sqrfree p (deg P + 1) P) = Z.of_nat (length (snd (sqrfree p (deg P + 1) P))) ->
+     eqp (pmulZ (sq_C p P) (pmulZ (prodl Lf) U)) (sq_A p P)).
+Proof. intros CP HP H. unfold czfactor in H. pose proof (sqrfree_canon p Hp (deg P + 1) P) as Cg.
+  destruct (sqrfree p (deg P + 1) P) as [nb g] eqn:ES. cbn [fst snd] in *.
+  destruct (cz_loop_prod _ 0 MOD [] [] s Lf Le s' (Forall_firstn' _ _ _ Cg) H) as [Nf [U [E1 [DU [PU _]]]]].
+  cbn [app] in E1. subst Nf. exists U. split; [assumption|]. split; [assumption|].
+  assert (HN : deg P + 1 <> 0) by (unfold deg; destruct P; [congruence|cbn [length]; lia]).
+  split.
+  - destruct (sqrfree_sound _ P nb g CP HP ES) as [X _]. eapply divides_eqp_l; [|exact X].
+    apply eqp_mul; [apply eqp_refl|apply eqp_sym; exact PU].
+  - intros Hn. eapply eqp_trans; [apply eqp_mul; [apply eqp_refl|exact PU]|].
+    exact (sqrfree_parts _ P nb g CP HP HN ES Hn). Qed.
+
+(* ================= S5: Bezout and Gauss ================= *)
+Lemma gcd_loop_bezout : forall fuel u g, canon u -> canon g -> g <> [] -> (length g <= fuel)%nat ->
+  exists a b, eqp (paddZ (pmulZ u a) (pmulZ g b)) (gcd_loop p fuel u g).
+Proof. induction fuel as [|f IH]; intros u g Cu Cg Hg Hl. { destruct g; [congruence|cbn [length] in Hl; lia]. }
+  cbn [gcd_loop]. destruct (pdivmod_spec p Hp u g Cu Cg Hg) as [E [CQ [CR L]]].
+  destruct (pmod p u g) as [|r0 r'] eqn:ER.
+  - exists [], [1]. apply eqp_ev. intros x. rewrite ev_paddZ, !ev_pmulZ. cbn [ev]. ring.
+  - destruct (IH g (r0 :: r') Cg CR ltac:(congruence) ltac:(lia)) as [a [b H]].
+    exists b, (paddZ a (pscaleZ (-1) (pmulZ (pdiv p u g) b))). eapply eqp_trans; [|exact H].
+    destruct E as [k Hk]. exists (pmulZ k b). intros x. specialize (Hk x). rewrite ev_paddZ, ev_pmulZ in Hk.
+    rewrite !ev_paddZ, !ev_pmulZ, !ev_paddZ, !ev_pscaleZ, !ev_pmulZ, Hk. ring. Qed.
+
+Theorem bezout P Q : canon P -> canon Q -> exists u v, eqp (paddZ (pmulZ P u) (pmulZ Q v)) (pgcd p P Q).
+Proof. intros CP CQ.
+  destruct (pgcd_branches P Q) as [[E ->]|[[E ->]|[[E [E' ->]]|[[E ->]|[HP [HQ [G [HG ->]]]]]]]].
+  1,2: exists [], [1]; apply eqp_ev; intros x; rewrite ev_paddZ, !ev_pmulZ; cbn [ev]; ring.
+  1,2: exists [1], []; apply eqp_ev; intros x; rewrite ev_paddZ, !ev_pmulZ; cbn [ev]; ring.
+  assert (X : (exists a b, eqp (paddZ (pmulZ P a) (pmulZ Q b)) G) /\ canon G /\ G <> []).
+  { destruct HG as [->| ->].
+    - destruct (gcd_loop_spec p Hp (length Q) P Q) as [_ [_ [C N]]]; auto. split; [|auto]. apply gcd_loop_bezout; auto.
+    - destruct (gcd_loop_spec p Hp (length P) Q P) as [_ [_ [C N]]]; auto. split; [|auto].
+      destruct (gcd_loop_bezout (length P) Q P) as [a [b H]]; auto. exists b, a. eapply eqp_trans; [|exact H].
+      apply eqp_ev. intros x. rewrite !ev_paddZ, !ev_pmulZ. ring. }
+  destruct X as [[a [b H]] [CG NG]].
+  destruct (Z.leb_spec (deg G) 0) as [L|L]; [|exists a, b; exact H].
+  assert (LG : length G = 1%nat) by (unfold deg in L; destruct G; [congruence|cbn [length] in *; lia]).
+  destruct (canon_len1 G CG LG) as [c [-> Hc]].
+  exists (pscaleZ (inv p c) a), (pscaleZ (inv p c) b).
+  apply eqp_trans with (pscaleZ (inv p c) [c]).
+  - eapply eqp_trans; [|apply eqp_scale; exact H]. apply eqp_ev. intros x. rewrite !ev_pscaleZ, !ev_paddZ, !ev_pmulZ, !ev_pscaleZ. ring.
+  - eapply eqp_trans; [|apply (unit_scale c pone); rewrite Z.mod_small; lia].
+    apply eqp_ev. intros x. rewrite !ev_pscaleZ. unfold pone. cbn [ev]. ring. Qed.
+
+(* Gauss' lemma: a coprime to b and a | b c  ==>  a | c *)
+Theorem gauss a b c : canon a -> canon b -> a <> [] \/ b <> [] -> deg (pgcd p a b) <= 0 ->
+  divides a (pmulZ b c) -> divides a c.
+Proof. intros Ca Cb Hab Hd H. destruct (bezout a b Ca Cb) as [u [v B]].
+  pose proof (pgcd_canon p Hp a b Ca Cb) as CG. pose proof (pgcd_nonnil a b Hab) as NG.
+  assert (LG : length (pgcd p a b) = 1%nat) by (unfold deg in Hd; destruct (pgcd p a b); [congruence|cbn [length] in *; lia]).
+  destruct (canon_len1 _ CG LG) as [k [Ek Hk]]. rewrite Ek in B.
+  assert (D1 : divides a (pmulZ c [k])).
+  { eapply divides_eqp; [apply (divides_lin p a a (pmulZ b c) (pmulZ u c) v (divides_refl p a) H)|].
+    eapply eqp_trans; [|apply eqp_mul; [apply eqp_refl|exact B]].
+    apply eqp_ev. intros x. rewrite !ev_pmulZ, !ev_paddZ, !ev_pmulZ. ring. }
+  eapply divides_eqp; [apply (divides_mul_r a _ [inv p k] D1)|].
+  eapply eqp_trans; [|apply (unit_scale k c); rewrite Z.mod_small; lia].
+  apply eqp_ev. intros x. rewrite !ev_pmulZ, ev_pscaleZ. cbn [ev]. ring. Qed.
+
+(* ================= S5 (stretch): Yun's recurrence is exact on  a_1^1 a_2^2 ... a_m^m,  m < p ================= *)
+(* weighted Leibniz sums:  wsum c s [b_0; b_1; ...] = sum_j (c + s j) b_j' prod_{i<>j} b_i *)
+Fixpoint wsum (c s : Z) (L : list poly) : poly :=
+  match L with [] => [] | b :: L' => paddZ (pscaleZ c (pmulZ (dZ b) (prodl L'))) (pmulZ b (wsum (c + s) s L')) end.
+(* gpow L k = prod_j b_j^(k+j) *)
+Fixpoint gpow (L : list poly) (k : nat) : poly :=
+  match L with [] => [1] | b :: L' => pmulZ (pwr b k) (gpow L' (S k)) end.
+
+Lemma ev_wsum_lin L : forall c s x, ev (wsum c s L) x = c * ev (wsum 1 0 L) x + s * ev (wsum 0 1 L) x.
+Proof. induction L as [|b L IH]; intros c s x; cbn [wsum]. { cbn [ev]. ring. }
+  change (1 + 0) with 1. change (0 + 1) with 1.
+  rewrite !ev_paddZ, !ev_pscaleZ, !ev_pmulZ, (IH (c + s) s), (IH 1 1). ring. Qed.
+Lemma ev_wsum_0 b L x : ev (wsum 0 1 (b :: L)) x = ev b x * ev (wsum 1 1 L) x.
+Proof. cbn [wsum]. change (0 + 1) with 1. rewrite ev_paddZ, ev_pscaleZ, !ev_pmulZ. ring. Qed.
+Lemma ev_dZ_prodl L : forall x, ev (dZ (prodl L)) x = ev (wsum 1 0 L) x.
+Proof. induction L as [|b L IH]; intros x. { reflexivity. }
+  change (prodl (b :: L)) with (pmulZ b (prodl L)). cbn [wsum]. change (1 + 0) with 1.
+  rewrite dZ_mul, IH, ev_paddZ, ev_pscaleZ, !ev_pmulZ. ring. Qed.
+Lemma ev_dZ_pwr b n x : ev (dZ (pwr b (S n))) x = Z.of_nat (S n) * ev (pwr b n) x * ev (dZ b) x.
+Proof. induction n as [|n IH].
+  - cbn [pwr]. rewrite dZ_mul. cbn [dZ diff_aux ev]. change (Z.of_nat 1) with 1. ring.
+  - change (pwr b (S (S n))) with (pmulZ b (pwr b (S n))). rewrite dZ_mul, IH.
+    change (pwr b (S n)) with (pmulZ b (pwr b n)). rewrite !ev_pmulZ, !Nat2Z.inj_succ. unfold Z.succ. ring. Qed.
+Lemma gprod_cons b L k : gprod (b :: L) (Z.of_nat k) = pmulZ (pwr b (S k)) (gprod L (Z.of_nat (S k))).
+Proof. cbn [gprod]. replace (Z.of_nat k + 1) with (Z.of_nat (S k)) by lia. rewrite Nat2Z.id. reflexivity. Qed.
+Lemma ev_gprod L : forall k x, ev (gprod L (Z.of_nat k)) x = ev (gpow L k) x * ev (prodl L) x.
+Proof. induction L as [|b L IH]; intros k x. { unfold prodl. cbn [gprod gpow fold_right ev]. ring. }
+  rewrite gprod_cons, ev_prodl_cons. cbn [gpow pwr]. rewrite !ev_pmulZ, IH. ring. Qed.
+Lemma ev_dZ_gprod L : forall k x,
+  ev (dZ (gprod L (Z.of_nat k))) x = ev (gpow L k) x * ev (wsum (Z.of_nat k + 1) 1 L) x.
+Proof. induction L as [|b L IH]; intros k x. { cbn [gprod gpow wsum dZ diff_aux ev]. ring. }
+  rewrite gprod_cons, dZ_mul, ev_dZ_pwr, IH, ev_gprod. cbn [gpow wsum pwr].
+  rewrite !ev_paddZ, !ev_pscaleZ, !ev_pmulZ, !Nat2Z.inj_succ. unfold Z.succ. ring. Qed.
+
+(* ---- units of Z/p *)
+Lemma unit_mul a b : a mod p <> 0 -> b mod p <> 0 -> (a * b) mod p <> 0.
+Proof. intros Ha Hb E. apply Z.mod_divide in E; [|lia]. apply prime_mult in E; [|assumption].
+  destruct E as [E|E]; apply Z.mod_divide in E; lia. Qed.
+Lemma unit_inv a : a mod p <> 0 -> inv p a mod p <> 0.
+Proof. intros Ha E. pose proof (inv_spec p Hp a Ha) as I. rewrite <- Z.mul_mod_idemp_r, E, Z.mul_0_r, Z.mod_0_l in I by lia. lia. Qed.
+Lemma unit_small c : 0 < c < p -> c mod p <> 0.
+Proof. intros H. rewrite Z.mod_small; lia. Qed.
+
+(* ---- GF(p)[X] is a domain: cancellation *)
+Lemma eqp_cancel a x y : ~ eqp a [] -> eqp (pmulZ a x) (pmulZ a y) -> eqp x y.
+Proof. intros Na H. set (d := paddZ x (pscaleZ (-1) y)).
+  assert (Ca : canon (red p a)) by (apply canon_red; assumption).
+  assert (Ce : canon (red p d)) by (apply canon_red; assumption).
+  assert (Ha : red p a <> []) by (intros E; apply Na; rewrite <- E; apply eqp_sym, eqp_red; assumption).
+  assert (E0 : eqp (pmulZ (red p a) (red p d)) []).
+  { eapply eqp_trans; [apply eqp_mul; apply eqp_red; assumption|].
+    apply eqp_trans with (paddZ (pmulZ a x) (pscaleZ (-1) (pmulZ a y))).
+    { apply eqp_ev. intros z. unfold d. rewrite !ev_pmulZ, !ev_paddZ, !ev_pscaleZ, !ev_pmulZ. ring. }
+    eapply eqp_trans; [apply eqp_add; [exact H|apply eqp_refl]|].
+    apply eqp_ev. intros z. rewrite ev_paddZ, ev_pscaleZ. cbn [ev]. ring. }
+  destruct (red p d) as [|e0 e'] eqn:Ed.
+  - assert (D0 : eqp d []) by (rewrite <- Ed; apply eqp_sym, eqp_red; assumption).
+    apply eqp_trans with (paddZ d y). { apply eqp_ev. intros z. unfold d. rewrite !ev_paddZ, ev_pscaleZ. ring. }
+    eapply eqp_trans; [apply eqp_add; [exact D0|apply eqp_refl]|]. apply eqp_refl.
+  - exfalso. pose proof (mul_not_short p Hp _ _ _ Ca Ce Ha ltac:(discriminate) E0) as M.
+    destruct (red p a); [congruence|cbn [length] in M; lia]. Qed.
+
+(* ---- coprimality through a Bezout identity *)
+Definition coprime (a b : poly) : Prop := exists u v, eqp (paddZ (pmulZ a u) (pmulZ b v)) [1].
+
+Lemma coprime_sym a b : coprime a b -> coprime b a.
+Proof. intros [u [v H]]. exists v, u. eapply eqp_trans; [|exact H]. apply eqp_ev. intros x. rewrite !ev_paddZ. ring. Qed.
+Lemma coprime_eqp_r a b b' : eqp b b' -> coprime a b -> coprime a b'.
+Proof. intros E [u [v H]]. exists u, v. eapply eqp_trans; [|exact H].
+  apply eqp_add; [apply eqp_refl|apply eqp_mul; [apply eqp_sym; exact E|apply eqp_refl]]. Qed.
+Lemma coprime_eqp_l a a' b : eqp a a' -> coprime a b -> coprime a' b.
+Proof. intros E H. apply coprime_sym. eapply coprime_eqp_r; [exact E|]. apply coprime_sym. exact H. Qed.
+Lemma coprime_mul_r a b c : coprime a b -> coprime a c -> coprime a (pmulZ b c).
+Proof. intros [u [v H]] [u' [v' H']].
+  exists (paddZ (pmulZ u (paddZ (pmulZ a u') (pmulZ c v'))) (pmulZ (pmulZ b v) u')), (pmulZ v v').
+  apply eqp_trans with (pmulZ (paddZ (pmulZ a u) (pmulZ b v)) (paddZ (pmulZ a u') (pmulZ c v'))).
+  { apply eqp_ev. intros x. repeat (rewrite ?ev_paddZ, ?ev_pmulZ). ring. }
+  eapply eqp_trans; [apply eqp_mul; [exact H|exact H']|]. apply eqp_ev. intros x. rewrite ev_pmulZ. cbn [ev]. ring. Qed.
+Lemma coprime_mul_l a b c : coprime a c -> coprime b c -> coprime (pmulZ a b) c.
+Proof. intros H1 H2. apply coprime_sym. apply coprime_mul_r; apply coprime_sym; assumption. Qed.
+Lemma coprime_shift a b t : coprime a b -> coprime a (paddZ b (pmulZ a t)).
+Proof. intros [u [v H]]. exists (paddZ u (pscaleZ (-1) (pmulZ t v))), v. eapply eqp_trans; [|exact H].
+  apply eqp_ev. intros x. repeat (rewrite ?ev_paddZ, ?ev_pmulZ, ?ev_pscaleZ). ring. Qed.
+Lemma coprime_const a c : c mod p <> 0 -> coprime a [c].
+Proof. intros H. exists [], [inv p c]. eapply eqp_trans; [|apply (unit_scale c [1] H)].
+  apply eqp_ev. intros x. rewrite ev_paddZ, !ev_pmulZ, ev_pscaleZ. cbn [ev]. ring. Qed.
+Lemma coprime_scale_r a b c : c mod p <> 0 -> coprime a b -> coprime a (pscaleZ c b).
+Proof. intros Hc H. apply coprime_eqp_r with (pmulZ [c] b).
+  { apply eqp_ev. intros x. rewrite ev_pmulZ, ev_pscaleZ. cbn [ev]. ring. }
+  apply coprime_mul_r; [apply coprime_const; assumption|assumption]. Qed.
+Lemma coprime_scale_l a b c : c mod p <> 0 -> coprime a b -> coprime (pscaleZ c a) b.
+Proof. intros Hc H. apply coprime_sym, coprime_scale_r; [assumption|apply coprime_sym; assumption]. Qed.
+Lemma coprime_prodl a : forall L, (forall b, In b L -> coprime a b) -> coprime a (prodl L).
+Proof. induction L as [|b L IH]; intros H. { apply (coprime_const a 1). apply unit_small. lia. }
+  change (prodl (b :: L)) with (pmulZ b (prodl L)). apply coprime_mul_r; [apply H; left; reflexivity|].
+  apply IH. intros c Hc. apply H. right. exact Hc. Qed.
+(* common divisors of (g w, g z) with w, z coprime are the divisors of g *)
+Lemma coprime_common_div d g w z : coprime w z -> divides d (pmulZ g w) -> divides d (pmulZ g z) -> divides d g.
+Proof. intros [u [v H]] D1 D2. eapply divides_eqp; [apply (divides_lin p d _ _ u v D1 D2)|].
+  apply eqp_trans with (pmulZ g (paddZ (pmulZ w u) (pmulZ z v))).
+  { apply eqp_ev. intros x. repeat (rewrite ?ev_paddZ, ?ev_pmulZ). ring. }
+  eapply eqp_trans; [apply eqp_mul; [apply eqp_refl|exact H]|]. apply eqp_ev. intros x. rewrite ev_pmulZ. cbn [ev]. ring. Qed.
+Lemma coprime_gauss a b c : coprime a b -> divides a (pmulZ b c) -> divides a c.
+Proof. intros H D. apply (coprime_common_div a c a b H).
+  - apply divides_factor_r.
+  - eapply divides_eqp; [exact D|]. apply eqp_ev. intros x. rewrite !ev_pmulZ. ring. Qed.
+Lemma coprime_divides_unit a b : coprime a b -> divides a b -> divides a [1].
+Proof. intros H D. apply (coprime_gauss a b [1] H). apply divides_mul_r. exact D. Qed.
+(* the model's test "deg gcd <= 0" gives a Bezout identity *)
+Lemma coprime_of_pgcd a b : canon a -> canon b -> a <> [] \/ b <> [] -> deg (pgcd p a b) <= 0 -> coprime a b.
+Proof. intros Ca Cb Hab Hd. destruct (bezout a b Ca Cb) as [u [v B]].
+  pose proof (pgcd_canon p Hp a b Ca Cb) as CG. pose proof (pgcd_nonnil a b Hab) as NG.
+  assert (LG : length (pgcd p a b) = 1%nat) by (unfold deg in Hd; destruct (pgcd p a b); [congruence|cbn [length] in *; lia]).
+  destruct (canon_len1 _ CG LG) as [k [Ek Hk]]. rewrite Ek in B.
+  exists (pscaleZ (inv p k) u), (pscaleZ (inv p k) v).
+  apply eqp_trans with (pscaleZ (inv p k) [k]).
+  - eapply eqp_trans; [|apply eqp_scale; exact B]. apply eqp_ev. intros x. repeat (rewrite ?ev_pscaleZ, ?ev_paddZ, ?ev_pmulZ). ring.
+  - eapply eqp_trans; [|apply (unit_scale k [1]); apply unit_small; assumption].
+    apply eqp_ev. intros x. rewrite !ev_pscaleZ. cbn [ev]. ring. Qed.
+
+(* ---- the gcd is determined up to associates; associates differ by a non-zero constant *)
+Lemma gcd_char X Y g w z : canon X -> canon Y -> eqp X (pmulZ g w) -> eqp Y (pmulZ g z) -> coprime w z ->
+  divides (pgcd p X Y) g /\ divides g (pgcd p X Y).
+Proof. intros CX CY EX EY H. destruct (pgcd_divides_always X Y CX CY) as [D1 D2]. split.
+  - apply (coprime_common_div _ g w z H); [exact (divides_eqp p _ _ _ D1 EX)|exact (divides_eqp p _ _ _ D2 EY)].
+  - apply divides_eqp_l with (red p g); [apply eqp_red; assumption|].
+    apply pgcd_greatest; auto using canon_red.
+    + exists w. eapply eqp_trans; [apply eqp_mul; [apply eqp_red; assumption|apply eqp_refl]|apply eqp_sym; exact EX].
+    + exists z. eapply eqp_trans; [apply eqp_mul; [apply eqp_red; assumption|apply eqp_refl]|apply eqp_sym; exact EY]. Qed.
+Lemma assoc_const F a : ~ eqp a [] -> divides F a -> divides a F -> exists c, c mod p <> 0 /\ eqp F (pscaleZ c a).
+Proof. intros Na [t Ht] [t' Ht'].
+  assert (U : eqp (pmulZ t' t) [1]).
+  { apply (eqp_cancel a); [assumption|]. apply eqp_trans with (pmulZ (pmulZ a t') t).
+    { apply eqp_ev. intros x. rewrite !ev_pmulZ. ring. }
+    eapply eqp_trans; [apply eqp_mul; [exact Ht'|apply eqp_refl]|]. eapply eqp_trans; [exact Ht|].
+    apply eqp_ev. intros x. rewrite ev_pmulZ. cbn [ev]. ring. }
+  assert (L : length (red p t') = 1%nat).
+  { apply (divides_const_is_const _ 1); [apply canon_red; assumption|lia|]. exists t.
+    eapply eqp_trans; [apply eqp_mul; [apply eqp_red; assumption|apply eqp_refl]|exact U]. }
+  destruct (canon_len1 _ (canon_red p Hp t') L) as [c [Ec Hc]]. exists c. split; [apply unit_small; assumption|].
+  eapply eqp_trans; [apply eqp_sym; exact Ht'|]. eapply eqp_trans; [apply eqp_mul; [apply eqp_refl|apply eqp_sym, eqp_red; assumption]|].
+  rewrite Ec. apply eqp_ev. intros x. rewrite ev_pmulZ, ev_pscaleZ. cbn [ev]. ring. Qed.
+Lemma canon_not_zero a : canon a -> a <> [] -> ~ eqp a [].
+Proof. intros Ca Ha E. apply Ha. apply (canon_eqp_nil p Hp); assumption. Qed.
+(* dividing  F X = c g t  by  F = mu g *)
+Lemma cancel_scaled F g X t mu c : mu mod p <> 0 -> ~ eqp F [] -> eqp F (pscaleZ mu g) ->
+  eqp (pmulZ F X) (pscaleZ c (pmulZ g t)) -> eqp X (pscaleZ (inv p mu * c) t).
+Proof. intros Hm NF EF H. apply (eqp_cancel F); [assumption|]. eapply eqp_trans; [exact H|].
+  apply eqp_trans with (pmulZ (pscaleZ mu g) (pscaleZ (inv p mu * c) t)); [|apply eqp_mul; [apply eqp_sym; exact EF|apply eqp_refl]].
+  eapply eqp_trans; [apply eqp_sym; apply (unit_scale mu _ Hm)|].
+  apply eqp_ev. intros x. repeat (rewrite ?ev_pmulZ, ?ev_pscaleZ). ring. Qed.
+
+(* ---- the coprimality behind Yun: prod L and sum_j w_j b_j' prod_{i<>j} b_i are coprime when all weights are units *)
+Fixpoint cop_list (L : list poly) : Prop :=
+  match L with [] => True | b :: L' => coprime b (dZ b) /\ (forall a, In a L' -> coprime b a) /\ cop_list L' end.
+
+Lemma coprime_wsum : forall L c s, cop_list L -> (forall j, (j < length L)%nat -> (c + s * Z.of_nat j) mod p <> 0) ->
+  coprime (prodl L) (wsum c s L).
+Proof. induction L as [|b L IH]; intros c s HL Hw.
+  - exists [1], []. apply eqp_ev. intros x. unfold prodl. cbn [fold_right wsum]. rewrite ev_paddZ, !ev_pmulZ. cbn [ev]. ring.
+  - destruct HL as [Hb [Hbl HL]]. change (prodl (b :: L)) with (pmulZ b (prodl L)). cbn [wsum].
+    assert (Hc : c mod p <> 0).
+    { specialize (Hw O ltac:(cbn [length]; lia)). change (Z.of_nat 0) with 0 in Hw. rewrite Z.mul_0_r, Z.add_0_r in Hw. exact Hw. }
+    assert (HbL : coprime b (prodl L)) by (apply coprime_prodl; assumption).
+    assert (IH' : coprime (prodl L) (wsum (c + s) s L)).
+    { apply IH; [assumption|]. intros j Hj. specialize (Hw (S j) ltac:(cbn [length]; lia)). rewrite Nat2Z.inj_succ in Hw.
+      replace (c + s + s * Z.of_nat j) with (c + s * Z.succ (Z.of_nat j)) by (unfold Z.succ; ring). exact Hw. }
+    apply coprime_mul_l.
+    + apply coprime_shift. apply coprime_scale_r; [assumption|]. apply coprime_mul_r; assumption.
+    + apply coprime_eqp_r with (paddZ (pmulZ b (wsum (c + s) s L)) (pmulZ (prodl L) (pscaleZ c (dZ b)))).
+      { apply eqp_ev. intros x. repeat (rewrite ?ev_paddZ, ?ev_pmulZ, ?ev_pscaleZ). ring. }
+      apply coprime_shift. apply coprime_mul_r; [apply coprime_sym; assumption|assumption]. Qed.
+
+(* Z = Y - W' keeps the shape, with the weights shifted down by one *)
+Lemma yun_Z W Y L c : eqp W (pscaleZ c (prodl L)) -> eqp Y (pscaleZ c (wsum 1 1 L)) ->
+  eqp (psub p Y (pdiff p W)) (pscaleZ c (wsum 0 1 L)).
+Proof. intros EW EY. unfold psub. eapply eqp_trans; [apply eqp_red; assumption|].
+  apply eqp_trans with (paddZ (pscaleZ c (wsum 1 1 L)) (pscaleZ (-1) (dZ (pscaleZ c (prodl L))))).
+  - apply eqp_add; [exact EY|apply eqp_scale]. eapply eqp_trans; [apply pdiff_dZ|apply dZ_eqp; exact EW].
+  - apply eqp_ev. intros x. rewrite ev_paddZ, !ev_pscaleZ, ev_dZ_scale, ev_dZ_prodl, (ev_wsum_lin L 1 1). ring. Qed.
+
+(* equal up to a non-zero constant *)
+Definition sim (f a : poly) : Prop := exists c, c mod p <> 0 /\ eqp f (pscaleZ c a).
+
+Lemma sqr_loop_step r W Y z Zp acc : sqr_loop p (S (S r)) W Y (z :: Zp) acc =
+  sqr_loop p (S r) (pdiv p W (pgcd p W (z :: Zp))) (pdiv p (z :: Zp) (pgcd p W (z :: Zp)))
+    (psub p (pdiv p (z :: Zp) (pgcd p W (z :: Zp))) (pdiff p (pdiv p W (pgcd p W (z :: Zp)))))
+    (acc ++ [pgcd p W (z :: Zp)]).
+Proof. reflexivity. Qed.
+Lemma last_in (l : list poly) d : l <> [] -> In (last l d) l.
+Proof. induction l as [|a l IH]; intros H; [congruence|]. destruct l as [|b l]; [left; reflexivity|].
+  right. change (last (a :: b :: l) d) with (last (b :: l) d). apply IH. discriminate. Qed.
+
+(* the Yun loop on  W = c prod L,  Z = c sum_j j b_j' prod_{i<>j} b_i  peels off b_0, b_1, ... one per round *)
+Lemma sqr_loop_yun : forall L' b rem W Y Zp acc c,
+  Forall (fun a => canon a /\ a <> []) (b :: L') -> cop_list (b :: L') -> Z.of_nat (length (b :: L')) < p ->
+  ~ divides (last (b :: L') [1]) [1] -> c mod p <> 0 -> canon W -> canon Zp ->
+  eqp W (pscaleZ c (prodl (b :: L'))) -> eqp Zp (pscaleZ c (wsum 0 1 (b :: L'))) -> (length (b :: L') <= rem)%nat ->
+  exists N Wf, sqr_loop p rem W Y Zp acc = (false, acc ++ N, Wf) /\ Forall2 sim (N ++ [Wf]) (b :: L').
+Proof. induction L' as [|b2 L'' IH]; intros b rem W Y Zp acc c FL HL Hlen Hlast Hc CW CZ EW EZ Hrem.
+  - assert (Zp = []).
+    { apply (canon_eqp_nil p Hp); [assumption|]. eapply eqp_trans; [exact EZ|]. apply eqp_ev. intros x.
+      rewrite ev_pscaleZ, ev_wsum_0. cbn [wsum ev]. ring. }
+    subst Zp. exists [], W. split; [destruct rem; rewrite app_nil_r; reflexivity|].
+    constructor; [|constructor]. exists c. split; [assumption|]. eapply eqp_trans; [exact EW|].
+    apply eqp_ev. intros x. rewrite !ev_pscaleZ, ev_prodl1. ring.
+  - set (L' := b2 :: L'') in *.
+    inversion FL as [|? ? [Cb Nb] FL']; subst. destruct HL as [Hb [Hbl HL']].
+    assert (Hcop : coprime (pscaleZ c (prodl L')) (pscaleZ c (wsum 1 1 L'))).
+    { apply coprime_scale_l; [assumption|]. apply coprime_scale_r; [assumption|]. apply coprime_wsum; [assumption|].
+      intros j Hj. apply unit_small. cbn [length] in Hlen. lia. }
+    assert (EW' : eqp W (pmulZ b (pscaleZ c (prodl L')))).
+    { eapply eqp_trans; [exact EW|]. apply eqp_ev. intros x. rewrite ev_pscaleZ, ev_prodl_cons, ev_pmulZ, ev_pscaleZ. ring. }
+    assert (EZ' : eqp Zp (pmulZ b (pscaleZ c (wsum 1 1 L')))).
+    { eapply eqp_trans; [exact EZ|]. apply eqp_ev. intros x. rewrite ev_pscaleZ, ev_wsum_0, ev_pmulZ, ev_pscaleZ. ring. }
+    pose proof (canon_not_zero b Cb Nb) as Zb.
+    destruct Zp as [|z0 Zp0].
+    { exfalso. apply Hlast. change (last (b :: L') [1]) with (last L' [1]).
+      assert (E0 : eqp (pscaleZ c (wsum 1 1 L')) []).
+      { apply (eqp_cancel b); [assumption|]. eapply eqp_trans; [apply eqp_sym; exact EZ'|].
+        apply eqp_ev. intros x. rewrite ev_pmulZ. cbn [ev]. ring. }
+      destruct (coprime_eqp_r _ _ _ E0 Hcop) as [u [v H]].
+      apply divides_trans with (prodl L'); [apply in_divides_prodl, last_in; discriminate|].
+      exists (pscaleZ c u). eapply eqp_trans; [|exact H]. apply eqp_ev. intros x.
+      repeat (rewrite ?ev_paddZ, ?ev_pmulZ, ?ev_pscaleZ). cbn [ev]. ring. }
+    destruct rem as [|[|r]]; [unfold L' in Hrem; cbn [length] in Hrem; lia|unfold L' in Hrem; cbn [length] in Hrem; lia|].
+    rewrite sqr_loop_step. set (Zp := z0 :: Zp0) in *. set (F := pgcd p W Zp) in *.
+    destruct (gcd_char W Zp b _ _ CW CZ EW' EZ' Hcop) as [G1 G2]. fold F in G1, G2.
+    destruct (assoc_const F b Zb G1 G2) as [mu [Hmu EF]].
+    assert (CF : canon F) by (apply pgcd_canon; assumption).
+    assert (NF : F <> []) by (apply pgcd_nonnil; right; discriminate).
+    destruct (pgcd_divides_always W Zp CW CZ) as [DW DZ]. fold F in DW, DZ.
+    destruct (div_exact p Hp W F CW CF NF DW) as [ExW CW1]. destruct (div_exact p Hp Zp F CZ CF NF DZ) as [ExY CY1].
+    pose proof (canon_not_zero F CF NF) as ZF.
+    assert (Hc' : (inv p mu * c) mod p <> 0) by (apply unit_mul; [apply unit_inv; assumption|assumption]).
+    assert (EW1 : eqp (pdiv p W F) (pscaleZ (inv p mu * c) (prodl L'))).
+    { apply (cancel_scaled F b _ _ mu c Hmu ZF EF). exact (eqp_trans p _ _ _ ExW EW). }
+    assert (EY1 : eqp (pdiv p Zp F) (pscaleZ (inv p mu * c) (wsum 1 1 L'))).
+    { apply (cancel_scaled F b _ _ mu c Hmu ZF EF). eapply eqp_trans; [exact ExY|]. eapply eqp_trans; [exact EZ|].
+      apply eqp_ev. intros x. rewrite !ev_pscaleZ, ev_wsum_0, ev_pmulZ. ring. }
+    pose proof (yun_Z _ _ L' _ EW1 EY1) as EZ1.
+    destruct (IH b2 (S r) (pdiv p W F) (pdiv p Zp F) (psub p (pdiv p Zp F) (pdiff p (pdiv p W F))) (acc ++ [F]) (inv p mu * c))
+      as [N [Wf [E F2]]]; auto.
+    + unfold L' in *. cbn [length] in *. lia.
+    + apply canon_red; assumption.
+    + unfold L' in *. cbn [length] in *. lia.
+    + exists (F :: N), Wf. split; [rewrite E, <- app_assoc; reflexivity|].
+      constructor; [exists mu; auto|exact F2]. Qed.
+
+(* hypotheses in the model's own terms: canonical, non-zero, square-free (gcd with the derivative constant),
+   pairwise coprime (gcd constant) *)
+Fixpoint yun_hyp (L : list poly) : Prop :=
+  match L with [] => True | b :: L' => canon b /\ b <> [] /\ deg (pgcd p b (pdiff p b)) <= 0 /\
+    (forall a, In a L' -> deg (pgcd p b a) <= 0) /\ yun_hyp L' end.
+Lemma yun_hyp_forall : forall L, yun_hyp L -> Forall (fun a => canon a /\ a <> []) L.
+Proof. induction L as [|b L IH]; intros H; [constructor|]. destruct H as [Cb [Nb [_ [_ HL]]]]. constructor; auto. Qed.
+Lemma yun_hyp_cop : forall L, yun_hyp L -> cop_list L.
+Proof. induction L as [|b L IH]; intros H; [exact I|]. destruct H as [Cb [Nb [Hs [Hc HL]]]].
+  split; [|split; [|apply IH; assumption]].
+  - apply coprime_eqp_r with (pdiff p b); [apply pdiff_dZ|]. apply coprime_of_pgcd; auto using pdiff_canon.
+  - intros a Ha. pose proof (yun_hyp_forall L HL) as FL. rewrite Forall_forall in FL. destruct (FL a Ha) as [Ca _].
+    apply coprime_of_pgcd; auto. Qed.
+Lemma in_divides_gpow b : forall L k, In b L -> (1 <= k)%nat -> divides b (gpow L k).
+Proof. induction L as [|a L IH]; intros k H Hk; [contradiction|]. cbn [gpow]. destruct H as [->|H].
+  - destruct k as [|k]; [lia|]. cbn [pwr]. apply divides_mul_r, divides_factor_l.
+  - apply divides_mul_l, IH; [assumption|lia]. Qed.
+Lemma Forall2_len (A B : Type) (R : A -> B -> Prop) l l' : Forall2 R l l' -> length l = length l'.
+Proof. induction 1; cbn [length]; congruence. Qed.
+Lemma last_indep (l : list poly) d d' : l <> [] -> last l d = last l d'.
+Proof. induction l as [|a l IH]; intros H; [congruence|]. destruct l; [reflexivity|]. apply IH. discriminate. Qed.
+
+(* Yun's recurrence is exact: if the monic A = P / lc P is  a_1^1 a_2^2 ... a_m^m  with the a_i canonical, square-free,
+   pairwise coprime, a_m not constant, m < p (so no exponent is a multiple of p) and m <= Nfact (no early exit), then
+   sqrfree returns m and the parts a_1, ..., a_m, each up to a non-zero constant factor *)
+Theorem sqrfree_yun Nfact P L : canon P -> P <> [] -> L <> [] -> yun_hyp L -> eqp (sq_A p P) (gprod L 0) ->
+  Z.of_nat (length L) < p -> Z.of_nat (length L) <= Nfact -> 1 <= deg (last L []) ->
+  fst (sqrfree p Nfact P) = Z.of_nat (length L) /\ Forall2 sim (snd (sqrfree p Nfact P)) L.
+Proof. intros CP HP NL HY HA Hm HNf Hdeg.
+  destruct (sq_A_facts P CP HP) as [CA [NA _]]. destruct (sq_C_facts P CP HP) as [CC [NC [DCA [DCB DDC]]]].
+  pose proof (yun_hyp_forall L HY) as FL. pose proof (yun_hyp_cop L HY) as HL.
+  set (G := gpow L 0).
+  assert (EA : eqp (sq_A p P) (pmulZ G (prodl L))).
+  { eapply eqp_trans; [exact HA|]. apply eqp_ev. intros x. rewrite ev_pmulZ. apply (ev_gprod L 0). }
+  assert (EB : eqp (pdiff p (sq_A p P)) (pmulZ G (wsum 1 1 L))).
+  { eapply eqp_trans; [apply pdiff_dZ|]. eapply eqp_trans; [apply dZ_eqp; exact HA|].
+    apply eqp_ev. intros x. rewrite ev_pmulZ. apply (ev_dZ_gprod L 0). }
+  assert (Hcop : coprime (prodl L) (wsum 1 1 L)).
+  { apply coprime_wsum; [assumption|]. intros j Hj. apply unit_small. lia. }
+  destruct (gcd_char _ _ G _ _ CA (pdiff_canon _) EA EB Hcop) as [_ GD].
+  pose proof (divides_trans _ _ _ GD DDC) as GC.
+  pose proof (coprime_common_div _ G _ _ Hcop (divides_eqp p _ _ _ DCA EA) (divides_eqp p _ _ _ DCB EB)) as CG.
+  assert (ZG : ~ eqp G []).
+  { intros E. apply NA. apply (canon_eqp_nil p Hp); [assumption|]. eapply eqp_trans; [exact EA|].
+    eapply eqp_trans; [apply eqp_mul; [exact E|apply eqp_refl]|]. apply eqp_refl. }
+  destruct (assoc_const _ G ZG CG GC) as [kap [Hkap EC]].
+  assert (Hlast : ~ divides (last L [1]) [1]).
+  { rewrite (last_indep L [1] [] NL). intros D1. rewrite Forall_forall in FL.
+    destruct (FL _ (last_in L [] NL)) as [Cl _]. pose proof (divides_const_is_const _ 1 Cl ltac:(lia) D1) as L1.
+    unfold deg in Hdeg. lia. }
+  assert (HN0 : Nfact <> 0) by (destruct L; [congruence|cbn [length] in HNf; lia]).
+  unfold sqrfree. destruct (Z.eqb_spec Nfact 0) as [|_]; [contradiction|]. cbv zeta.
+  change (pscale p (inv p (lc P)) P) with (sq_A p P).
+  change (pscale p (inv p (lc (pgcd p (sq_A p P) (pdiff p (sq_A p P))))) (pgcd p (sq_A p P) (pdiff p (sq_A p P)))) with (sq_C p P).
+  set (A := sq_A p P) in *. set (C := sq_C p P) in *.
+  destruct L as [|b L']; [congruence|].
+  destruct (list_eq_dec Z.eq_dec C pone) as [EC1|_].
+  - destruct L' as [|b2 L''].
+    + cbn [fst snd length]. split; [reflexivity|]. constructor; [|constructor]. exists 1. split; [apply unit_small; lia|].
+      eapply eqp_trans; [exact HA|]. apply eqp_ev. intros x. cbn [gprod]. change (Z.to_nat (0 + 1)) with 1%nat. cbn [pwr].
+      rewrite !ev_pmulZ, ev_pscaleZ. cbn [ev]. ring.
+    + exfalso. apply Hlast. change (last (b :: b2 :: L'') [1]) with (last (b2 :: L'') [1]).
+      rewrite EC1 in GC. eapply divides_trans; [|exact GC]. unfold G. change (gpow (b :: b2 :: L'') 0) with (pmulZ (pwr b 0) (gpow (b2 :: L'') 1)). apply divides_mul_l.
+      apply in_divides_gpow; [apply last_in; discriminate|lia].
+  - destruct (div_exact p Hp A C CA CC NC DCA) as [ExW CW].
+    destruct (div_exact p Hp (pdiff p A) C (pdiff_canon _) CC NC DCB) as [ExY CY].
+    pose proof (canon_not_zero C CC NC) as ZC.
+    assert (EW : eqp (pdiv p A C) (pscaleZ (inv p kap * 1) (prodl (b :: L')))).
+    { apply (cancel_scaled C G _ _ kap 1 Hkap ZC EC). eapply eqp_trans; [exact ExW|]. eapply eqp_trans; [exact EA|].
+      apply eqp_ev. intros x. rewrite ev_pscaleZ. ring. }
+    assert (EY : eqp (pdiv p (pdiff p A) C) (pscaleZ (inv p kap * 1) (wsum 1 1 (b :: L')))).
+    { apply (cancel_scaled C G _ _ kap 1 Hkap ZC EC). eapply eqp_trans; [exact ExY|]. eapply eqp_trans; [exact EB|].
+      apply eqp_ev. intros x. rewrite ev_pscaleZ. ring. }
+    pose proof (yun_Z _ _ _ _ EW EY) as EZ.
+    destruct (sqr_loop_yun L' b (Z.to_nat Nfact + 1) (pdiv p A C) (pdiv p (pdiff p A) C)
+                (psub p (pdiv p (pdiff p A) C) (pdiff p (pdiv p A C))) [] (inv p kap * 1)) as [N [Wf [E F2]]]; auto.
+    + apply unit_mul; [apply unit_inv; assumption|apply unit_small; lia].
+    + apply canon_red; assumption.
+    + lia.
+    + rewrite E. cbn [fst snd app]. split; [|exact F2].
+      pose proof (Forall2_len _ _ _ _ _ F2) as LN. rewrite app_length in LN. cbn [length] in LN. cbn [length]. lia. Qed.
+
 End P.
+
+(* ================= closed statements ================= *)
+(* S1a: Poly1Dom::gcd is the greatest common divisor (every branch; holds also for P = Q = []) *)
+Definition Pgcd_greatest_stmt : Prop := forall p, prime p -> forall P Q D,
+  canon p P -> canon p Q -> canon p D -> divides p D P -> divides p D Q -> divides p D (pgcd p P Q).
+Lemma pgcd_greatest_thm : Pgcd_greatest_stmt.
+Proof. exact pgcd_greatest. Qed.
+
+(* S1b: its value divides both arguments, with no hypothesis on the degree of the result; and it is not zero
+   unless both arguments are *)
+Definition Pgcd_divides_stmt : Prop := forall p, prime p -> forall P Q, canon p P -> canon p Q ->
+  divides p (pgcd p P Q) P /\ divides p (pgcd p P Q) Q /\ (P <> [] \/ Q <> [] -> pgcd p P Q <> []).
+Lemma pgcd_divides_thm : Pgcd_divides_stmt.
+Proof. intros p Hp P Q CP CQ. destruct (pgcd_divides_always p Hp P Q CP CQ). auto using pgcd_nonnil. Qed.
+
+(* S2a: coefficients of Poly1Dom::diff, canonical result, congruent to the raw derivative dZ; any input list *)
+Definition Pdiff_coeff_stmt : Prop := forall p, prime p -> forall A,
+  (forall i, nth i (pdiff p A) 0 = ((Z.of_nat i + 1) * nth (S i) A 0) mod p) /\ canon p (pdiff p A) /\ eqp p (pdiff p A) (dZ A).
+Lemma pdiff_coeff_thm : Pdiff_coeff_stmt.
+Proof. intros p Hp A. split; [intros i; apply pdiff_coeff|]. split; [apply pdiff_canon|apply pdiff_dZ]; assumption. Qed.
+
+(* S2b: Leibniz rule over Z[X] (as polynomial functions, hence coefficientwise by ev_inj) *)
+Definition DZ_leibniz_stmt : Prop := forall a b x, ev (dZ (pmulZ a b)) x = ev (dZ a) x * ev b x + ev a x * ev (dZ b) x.
+Lemma dZ_leibniz_thm : DZ_leibniz_stmt.
+Proof. exact dZ_mul. Qed.
+
+(* S2c: the derivative respects congruence modulo p, and Leibniz holds for diff in GF(p)[X] *)
+Definition Pdiff_leibniz_stmt : Prop := forall p, prime p ->
+  (forall a b, eqp p a b -> eqp p (dZ a) (dZ b)) /\
+  (forall a b, eqp p (pdiff p (pmul p a b)) (paddZ (pmulZ (pdiff p a) b) (pmulZ a (pdiff p b)))).
+Lemma pdiff_leibniz_thm : Pdiff_leibniz_stmt.
+Proof. intros p Hp. split; [apply dZ_eqp|apply pdiff_mul]; assumption. Qed.
+
+(* S3a: completeness of the square-free parts, every characteristic: with A = P/lc P and C = gcd(A,A')/lc, when sqrfree
+   did not leave by `++count > Nfact` (observable: the count returned is the number of parts stored), the parts
+   multiply -- without multiplicities -- to A / C *)
+Definition Sqrfree_parts_stmt : Prop := forall p, prime p -> forall Nfact P n Fact,
+  canon p P -> P <> [] -> Nfact <> 0 -> sqrfree p Nfact P = (n, Fact) -> n = Z.of_nat (length Fact) ->
+  eqp p (pmulZ (sq_C p P) (prodl (firstn (Z.to_nat n) Fact))) (sq_A p P).
+Lemma sqrfree_parts_thm : Sqrfree_parts_stmt.
+Proof. exact sqrfree_parts. Qed.
+
+(* S3b: the dichotomy: either the above, or the early exit: n = Nfact, Nfact+1 parts stored, and C * Wf * (all stored parts) = A *)
+Definition Sqrfree_cases_stmt : Prop := forall p, prime p -> forall Nfact P, canon p P -> P <> [] -> Nfact <> 0 ->
+  (fst (sqrfree p Nfact P) = Z.of_nat (length (snd (sqrfree p Nfact P))) /\
+   eqp p (pmulZ (sq_C p P) (prodl (snd (sqrfree p Nfact P)))) (sq_A p P)) \/
+  (fst (sqrfree p Nfact P) = Nfact /\ length (snd (sqrfree p Nfact P)) = S (Z.to_nat Nfact) /\
+   exists Wf, eqp p (pmulZ (sq_C p P) (pmulZ Wf (prodl (snd (sqrfree p Nfact P))))) (sq_A p P)).
+Lemma sqrfree_cases_thm : Sqrfree_cases_stmt.
+Proof. exact sqrfree_parts_gen. Qed.
+
+(* S3c: soundness in every case (every Nfact, early exit or not): C * (product of the first n parts) divides A, and
+   every stored part divides P *)
+Definition Sqrfree_sound_stmt : Prop := forall p, prime p -> forall Nfact P n Fact, canon p P -> sqrfree p Nfact P = (n, Fact) ->
+  (P <> [] -> divides p (pmulZ (sq_C p P) (prodl (firstn (Z.to_nat n) Fact))) (sq_A p P)) /\
+  (forall g, In g Fact -> divides p g P).
+Lemma sqrfree_sound_thm : Sqrfree_sound_stmt.
+Proof. intros p Hp Nfact P n Fact CP H. split.
+  - intros HP. apply (sqrfree_sound p Hp Nfact P n Fact CP HP H).
+  - intros g Hg. exact (sqrfree_part_divides p Hp Nfact P n Fact g CP H Hg). Qed.
+
+(* S4a: CZfactor invents no factor: every input, every characteristic, every MOD, every random stream *)
+Definition Czfactor_divides_stmt : Prop := forall p, prime p -> forall P MOD s Lf Le s', canon p P ->
+  czfactor p P MOD s = Some (Lf, Le, s') -> forall f, In f Lf -> divides p f P.
+Lemma czfactor_divides_thm : Czfactor_divides_stmt.
+Proof. exact czfactor_factors_divide. Qed.
+
+(* S4b: all returned factors together, each taken once, times a constant U, are the product of the square-free parts used;
+   times C they divide A; and give exactly A when sqrfree did not leave by its early exit *)
+Definition Czfactor_radical_stmt : Prop := forall p, prime p -> forall P MOD s Lf Le s', canon p P -> P <> [] ->
+  czfactor p P MOD s = Some (Lf, Le, s') ->
+  exists U, deg U <= 0 /\
+    eqp p (pmulZ (prodl Lf) U) (prodl (firstn (Z.to_nat (fst (sqrfree p (deg P + 1) P))) (snd (sqrfree p (deg P + 1) P)))) /\
+    divides p (pmulZ (sq_C p P) (pmulZ (prodl Lf) U)) (sq_A p P) /\
+    (fst (sqrfree p (deg P + 1) P) = Z.of_nat (length (snd (sqrfree p (deg P + 1) P))) ->
+     eqp p (pmulZ (sq_C p P) (pmulZ (prodl Lf) U)) (sq_A p P)).
+Lemma czfactor_radical_thm : Czfactor_radical_stmt.
+Proof. exact czfactor_radical. Qed.
+
+(* S5a: Bezout *)
+Definition Bezout_stmt : Prop := forall p, prime p -> forall P Q, canon p P -> canon p Q ->
+  exists u v, eqp p (paddZ (pmulZ P u) (pmulZ Q v)) (pgcd p P Q).
+Lemma bezout_thm : Bezout_stmt.
+Proof. exact bezout. Qed.
+
+(* S5b: Gauss *)
+Definition Gauss_stmt : Prop := forall p, prime p -> forall a b c, canon p a -> canon p b -> a <> [] \/ b <> [] ->
+  deg (pgcd p a b) <= 0 -> divides p a (pmulZ b c) -> divides p a c.
+Lemma gauss_thm : Gauss_stmt.
+Proof. exact gauss. Qed.
+
+(* ================= the hypotheses are satisfiable ================= *)
+Lemma prime_5_sqr : prime 5.
+Proof. apply prime_intro; [lia|]. intros n Hn.
+  assert (n = 1 \/ n = 2 \/ n = 3 \/ n = 4) as [|[|[|]]] by lia; subst; apply Zgcd_1_rel_prime; reflexivity. Qed.
+Ltac canon_lit := split; [repeat constructor; lia|cbn; lia].
+
+(* gcd(X^2 - 1, X^2 + 4X + 3) = X + 1 over GF(5); D = X + 1 is a common divisor *)
+Example pgcd_greatest_example : prime 5 /\ canon 5 [4; 0; 1] /\ canon 5 [3; 4; 1] /\ canon 5 [1; 1] /\
+  divides 5 [1; 1] [4; 0; 1] /\ divides 5 [1; 1] [3; 4; 1] /\ pgcd 5 [4; 0; 1] [3; 4; 1] = [1; 1].
+Proof. split; [exact prime_5_sqr|]. split; [canon_lit|]. split; [canon_lit|]. split; [canon_lit|].
+  split; [exists [4; 1]; exists [0; 1]; intros x; cbn [pmulZ pscaleZ paddZ map ev]; ring|].
+  split; [exists [3; 1]; exists []; intros x; cbn [pmulZ pscaleZ paddZ map ev]; ring|]. vm_compute. reflexivity. Qed.
+(* the branch where the model answers 1: coprime arguments *)
+Example pgcd_divides_example : prime 5 /\ canon 5 [1; 1] /\ canon 5 [2; 1] /\ pgcd 5 [1; 1] [2; 1] = pone.
+Proof. split; [exact prime_5_sqr|]. split; [canon_lit|]. split; [canon_lit|]. vm_compute. reflexivity. Qed.
+Example pdiff_example : prime 5 /\ pdiff 5 [1; 2; 3; 4] = [2; 1; 2] /\ dZ [1; 2; 3; 4] = [2; 6; 12].
+Proof. split; [exact prime_5_sqr|]. split; vm_compute; reflexivity. Qed.
+(* characteristic 2, P = X^2 (multiplicity = characteristic, where the p-th-root defect bites): the statement holds *)
+Example sqrfree_parts_example_char2 : prime 2 /\ canon 2 [0; 0; 1] /\ [0; 0; 1] <> [] /\ 3 <> 0 /\
+  sqrfree 2 3 [0; 0; 1] = (1, [[1]]) /\ 1 = Z.of_nat (length [[1]]) /\ sq_C 2 [0; 0; 1] = [0; 0; 1].
+Proof. split; [exact prime_2|]. split; [canon_lit|]. split; [discriminate|]. split; [lia|].
+  split; [vm_compute; reflexivity|]. split; vm_compute; reflexivity. Qed.
+(* P = 2 X^2 (X+1) over GF(3): parts [X+1; X], C = X *)
+Example sqrfree_parts_example : prime 3 /\ canon 3 [0; 0; 2; 2] /\ [0; 0; 2; 2] <> [] /\ 5 <> 0 /\
+  sqrfree 3 5 [0; 0; 2; 2] = (2, [[1; 1]; [0; 1]]) /\ 2 = Z.of_nat (length [[1; 1]; [0; 1]]) /\
+  sq_A 3 [0; 0; 2; 2] = [0; 0; 1; 1] /\ sq_C 3 [0; 0; 2; 2] = [0; 1].
+Proof. split; [exact prime_3|]. split; [canon_lit|]. split; [discriminate|]. split; [lia|].
+  split; [vm_compute; reflexivity|]. split; [vm_compute; reflexivity|]. split; vm_compute; reflexivity. Qed.
+(* the early exit is reachable: P = X (X+1)^2 (X+2)^3 over GF(5) with Nfact = 1 stores Nfact + 1 = 2 parts and returns n = 1 *)
+Example sqrfree_early_exit_example : prime 5 /\ canon 5 [0; 3; 3; 3; 0; 3; 1] /\
+  sqrfree 5 1 [0; 3; 3; 3; 0; 3; 1] = (1, [[0; 2]; [3; 3]]) /\ length [[0; 2]; [3; 3]] = S (Z.to_nat 1) /\
+  sqrfree 5 7 [0; 3; 3; 3; 0; 3; 1] = (3, [[0; 2]; [3; 3]; [2; 1]]).
+Proof. split; [exact prime_5_sqr|]. split; [canon_lit|]. split; [vm_compute; reflexivity|]. split; vm_compute; reflexivity. Qed.
+Example czfactor_example : prime 3 /\ canon 3 [0; 0; 2; 2] /\
+  czfactor 3 [0; 0; 2; 2] 3 [1; 2; 1; 1; 2; 0; 1] = Some ([[1; 1]; [0; 1]], [1; 2], [1; 2; 1; 1; 2; 0; 1]).
+Proof. split; [exact prime_3|]. split; [canon_lit|]. vm_compute. reflexivity. Qed.
+Example czfactor_example_split : prime 5 /\ canon 5 [4; 0; 1] /\
+  czfactor 5 [4; 0; 1] 5 [1; 2; 3; 1; 4; 2; 0; 1; 1; 1; 1; 2; 3; 4] = Some ([[4; 4]; [1; 4]], [1; 1], [3; 1; 4; 2; 0; 1; 1; 1; 1; 2; 3; 4]).
+Proof. split; [exact prime_5_sqr|]. split; [canon_lit|]. vm_compute. reflexivity. Qed.
+(* Gauss: X+1 is coprime to X+2 and divides (X+2)(X+1) *)
+Example gauss_example : prime 5 /\ canon 5 [1; 1] /\ canon 5 [2; 1] /\ deg (pgcd 5 [1; 1] [2; 1]) <= 0 /\
+  divides 5 [1; 1] (pmulZ [2; 1] [1; 1]).
+Proof. split; [exact prime_5_sqr|]. split; [canon_lit|]. split; [canon_lit|]. split; [vm_compute; discriminate|].
+  exists [2; 1]. exists []. intros x. cbn [pmulZ pscaleZ paddZ map ev]. ring. Qed.
+
+(* S5c: Yun's recurrence is exact when it should be.  yun_hyp p [a_1; ...; a_m]: every a_i canonical, non-zero,
+   deg gcd(a_i, a_i') <= 0, deg gcd(a_i, a_j) <= 0 for i < j.  sim p f a: f = c a for a constant c <> 0 mod p. *)
+Definition Sqrfree_yun_stmt : Prop := forall p, prime p -> forall Nfact P L,
+  canon p P -> P <> [] -> L <> [] -> yun_hyp p L -> eqp p (sq_A p P) (gprod L 0) ->
+  Z.of_nat (length L) < p -> Z.of_nat (length L) <= Nfact -> 1 <= deg (last L []) ->
+  fst (sqrfree p Nfact P) = Z.of_nat (length L) /\ Forall2 (sim p) (snd (sqrfree p Nfact P)) L.
+Lemma sqrfree_yun_thm : Sqrfree_yun_stmt.
+Proof. exact sqrfree_yun. Qed.
+
+(* P = X (X+1)^2 (X+2)^3 over GF(5), m = 3 < 5 *)
+Example sqrfree_yun_example : prime 5 /\ canon 5 [0; 3; 3; 3; 0; 3; 1] /\ yun_hyp 5 [[0; 1]; [1; 1]; [2; 1]] /\
+  eqp 5 (sq_A 5 [0; 3; 3; 3; 0; 3; 1]) (gprod [[0; 1]; [1; 1]; [2; 1]] 0) /\ Z.of_nat 3 < 5 /\ Z.of_nat 3 <= 7 /\
+  1 <= deg (last [[0; 1]; [1; 1]; [2; 1]] []) /\ sqrfree 5 7 [0; 3; 3; 3; 0; 3; 1] = (3, [[0; 2]; [3; 3]; [2; 1]]).
+Proof. split; [exact prime_5_sqr|]. split; [canon_lit|]. split.
+  { cbn [yun_hyp]. split; [canon_lit|]. split; [discriminate|]. split; [vm_compute; discriminate|]. split.
+    { intros a [<-|[<-|[]]]; vm_compute; discriminate. }
+    split; [canon_lit|]. split; [discriminate|]. split; [vm_compute; discriminate|]. split.
+    { intros a [<-|[]]; vm_compute; discriminate. }
+    split; [canon_lit|]. split; [discriminate|]. split; [vm_compute; discriminate|]. split; [intros a []|exact I]. }
+  split. { replace (sq_A 5 [0; 3; 3; 3; 0; 3; 1]) with (red 5 (gprod [[0; 1]; [1; 1]; [2; 1]] 0)) by (vm_compute; reflexivity).
+           apply eqp_red. exact prime_5_sqr. }
+  split; [cbn; lia|]. split; [cbn; lia|]. split; [vm_compute; discriminate|]. vm_compute. reflexivity. Qed.
